@@ -31,9 +31,50 @@ func genFaultsW(r *rand.Rand, i int) Scenario {
 	sc := Scenario{Name: fmt.Sprintf("faults_w-%d", i), NormKind: "code", Universe: universeOf(&cfg)}
 	seq := 0
 	b1 := genBatch(r, &cfg, &seq)
-	b2 := genBatch(r, &cfg, &seq)
+	c2 := cfg
+	if i%2 == 1 {
+		// differing schemas: the later input knows fields (sorting last and first) that the first input lacks
+		c2.Fields = append(append([]string{}, cfg.Fields...), "zlast", "Afirst")
+		c2.DvNames = map[string]bool{"zlast": true}
+		for k, v := range cfg.DvNames {
+			c2.DvNames[k] = v
+		}
+		c2.MinDocs = 2
+		sc.Universe = append(sc.Universe, "zlast", "Afirst")
+	}
+	b2 := genBatch(r, &c2, &seq)
+	d1, d2 := randDrops(r, len(b1)), randDropsNotAll(r, len(b2))
+	if i%2 == 1 {
+		// every surviving document of the later input carries the extra fields
+		for d := range b2 {
+			for _, f := range []string{"zlast", "Afirst"} {
+				has := false
+				for _, fi := range b2[d] {
+					has = has || fi.Name == f
+				}
+				if !has {
+					b2[d] = append(b2[d], FieldInst{Name: f, Len: 1, DV: f == "zlast", Value: Bytes{}, Terms: []TermOcc{{Term: B([]byte("w")), Freq: 1, Locs: []Loc{}}}})
+				}
+			}
+		}
+		if len(b1) == 0 {
+			b1 = Batch{Doc{}}
+		}
+		// a doc-value field both inputs have, sorting right before the fields only the later input has
+		for _, bb := range []Batch{b1, b2} {
+			for d := range bb {
+				bb[d] = append(bb[d], FieldInst{Name: "zdv", Len: 1, DV: true, Value: Bytes{}, Terms: []TermOcc{{Term: B([]byte(fmt.Sprintf("v%d", d))), Freq: 1, Locs: []Loc{}}}})
+			}
+		}
+		sc.Universe = append(sc.Universe, "zdv")
+		if len(d1.Docs) == len(b1) {
+			d1 = DropSpec{Kind: "nil"}
+		}
+		if d1.Kind == "set" && len(d1.Docs) > len(b1) {
+			d1 = DropSpec{Kind: "nil"}
+		}
+	}
 	sc.Batches = []Batch{b1, b2}
-	d1, d2 := randDrops(r, len(b1)), randDrops(r, len(b2))
 	mode := []uint32{0, 0, 2, 1024}[r.Intn(4)]
 	sc.Ops = append(sc.Ops,
 		Op{Op: "build", Seg: 1, Batch: 0, Mode: pickMode(r)}, Op{Op: "build", Seg: 2, Batch: 1, Mode: pickMode(r)},
@@ -161,9 +202,13 @@ func genFaultRead(r *rand.Rand, i int) Scenario {
 	if len(b1) > 0 {
 		sc.Ops = append(sc.Ops, Op{Op: "dv_visit", R: 740, N: 0})
 	}
-	if r.Intn(3) == 0 {
+	switch r.Intn(4) {
+	case 0:
 		sc.Ops = append(sc.Ops, Op{Op: "arm_gate_close", Seg: seg})
-	} else {
+	case 1, 2:
+		// the storage fails after a few more reads: in the middle of a later call (between its reads)
+		sc.Ops = append(sc.Ops, Op{Op: "fail_after", Seg: seg, N: r.Intn(9)})
+	default:
 		sc.Ops = append(sc.Ops, Op{Op: "close_file", Seg: seg})
 	}
 	// a caller that keeps calling after an error: more calls than the list has postings
@@ -204,6 +249,14 @@ func genConcFree(r *rand.Rand, i int) Scenario {
 	seq := 0
 	b1 := genBatch(r, &cfg, &seq)
 	b2 := genBatch(r, &cfg, &seq)
+	// a field with one term that never has locations and one that always has: iterator objects are handed from
+	// the first to the second inside every goroutine
+	for d := range b1 {
+		b1[d] = append(b1[d], FieldInst{Name: "h", Len: 3, Value: Bytes{}, Terms: []TermOcc{
+			{Term: B([]byte("nl")), Freq: 1, Locs: []Loc{}},
+			{Term: B([]byte("wl")), Freq: 2, Locs: []Loc{{Field: "", Pos: d + 1, Start: d, End: d + 2}, {Field: "", Pos: d + 9, Start: 1, End: 300 + d}}}}})
+	}
+	sc.Universe = append(sc.Universe, "h")
 	sc.Batches = []Batch{b1, b2}
 	sc.Ops = append(sc.Ops, Op{Op: "build", Seg: 1, Batch: 0, Mode: pickMode(r)}, Op{Op: "build", Seg: 2, Batch: 1, Mode: pickMode(r)})
 	seg := 1
@@ -222,6 +275,18 @@ func genConcFree(r *rand.Rand, i int) Scenario {
 		// stored fields of documents in different blocks are the contended resource
 		for k := 0; k < 6; k++ {
 			ops = append(ops, Op{Op: "stored", Seg: seg, N: r.Intn(len(b1))})
+		}
+		hb := 1000*(g+1) + 500
+		hand := []Op{{Op: "pl_open", Seg: seg, Field: "h", Term: B([]byte("nl")), Pl: hb}, {Op: "it_open", Pl: hb, It: hb + 1, Freq: true, Norm: true, Locs: true},
+			{Op: "it_next", It: hb + 1}, {Op: "it_next", It: hb + 1},
+			{Op: "pl_open", Seg: seg, Field: "h", Term: B([]byte("wl")), Pl: hb + 2}, {Op: "it_open", Pl: hb + 2, It: hb + 1, Prealloc: hb + 1, Freq: true, Norm: true, Locs: true}}
+		for k := 0; k < len(b1)+1 && k < 12; k++ {
+			hand = append(hand, Op{Op: "it_next", It: hb + 1})
+		}
+		if r.Intn(2) == 0 {
+			ops = append(hand, ops...)
+		} else {
+			ops = append(ops, hand...)
 		}
 		groups[g] = ops
 	}
